@@ -988,4 +988,127 @@ theorem runWithS_rel {lo hi : Rat} {f : SCol Rat → SCol Rat} (hf : ∀ n w, SC
   | succ k ih => intro n w h; exact List.Forall₂.cons (hf n w h) (ih _ _ (hf n w h))
 
 
+/-! ### exchange with the boundary solutions -/
+
+
+/-- interior faces symmetric (`m1[i] = m[i+1]`), first cell takes `a` from the solution below, last cell `b` from the
+solution above, every triple sums to one -/
+def SymEnds (b : Rat) : Rat → List (W Rat) → Prop
+  | a, [] => a = b
+  | a, w :: ws => w.l = a ∧ w.l + w.s + w.r = 1 ∧ SymEnds b w.r ws
+
+theorem mixGo_sum_ends (last b : Rat) : ∀ (xs : List Rat) (x : Rat) (ws : List (W Rat)) (prev a : Rat),
+    (x :: xs).length = ws.length → SymEnds b a ws →
+    (mixGo last prev (x :: xs) ws).sum =
+      (x :: xs).sum + a * (prev - x) + b * (last - (x :: xs).getLast (List.cons_ne_nil _ _)) := by
+  intro xs
+  induction xs with
+  | nil =>
+    intro x ws prev a hl hs
+    match ws, hl, hs with
+    | [w], _, ⟨h1, h2, h3⟩ =>
+      simp only [SymEnds] at h3
+      have hs' : w.s = 1 - w.l - w.r := by linarith
+      simp only [mixGo, List.headD_nil, List.sum_cons, List.sum_nil, List.getLast_singleton]
+      rw [hs', h1, h3]; ring
+  | cons y ys ih =>
+    intro x ws prev a hl hs
+    match ws, hl, hs with
+    | w :: ws', hl, ⟨h1, h2, h3⟩ =>
+      have hl' : (y :: ys).length = ws'.length := by simpa using hl
+      have := ih y ws' x w.r hl' h3
+      have hs' : w.s = 1 - w.l - w.r := by linarith
+      simp only [mixGo, List.headD_cons, List.sum_cons] at this ⊢
+      rw [this, List.getLast_cons (List.cons_ne_nil _ _), hs', h1]
+      ring
+
+/-- **constant_boundary_mix_balance** — one sub-mix with symmetric interior faces changes the column inventory exactly by
+what is exchanged with the two boundary solutions: `a·(c₀ − c₁) + b·(c_{n+1} − c_n)` -/
+theorem mixStep_sum_ends {ws : List (W Rat)} {a b : Rat} (hs : SymEnds b a ws) {c : Col Rat} (x : Rat) (xs : List Rat)
+    (hc : c.cells = x :: xs) (hl : c.cells.length = ws.length) :
+    (mixStep ws c).sum = c.sum + a * (c.first - x) + b * (c.last - (x :: xs).getLast (List.cons_ne_nil _ _)) := by
+  simp only [mixStep, Col.sum, hc]
+  rw [hc] at hl
+  exact mixGo_sum_ends c.last b xs x ws c.first a hl hs
+
+/-- chain property of the factor pairs with open ends: `m[1] = a`, `m1[i] = m[i+1]`, `m1[n] = b` -/
+def SymPE (b : Rat) : Rat → List (Rat × Rat) → Prop
+  | a, [] => a = b
+  | a, p :: ps => p.1 = a ∧ SymPE b p.2 ps
+
+theorem symP_symPE : ∀ (ps : List (Rat × Rat)) (a : Rat), SymP a ps → SymPE 0 a ps := by
+  intro ps
+  induction ps with
+  | nil => intro a h; exact h
+  | cons p ps ih => intro a h; exact ⟨h.1, ih _ h.2⟩
+
+theorem symPE_modLast (b : Rat) : ∀ (l : List (Rat × Rat)) (a : Rat), SymPE 0 a l → l ≠ [] →
+    SymPE b a (modLast (fun p => (p.1, b)) l) := by
+  intro l
+  induction l with
+  | nil => intro a _ h; exact absurd rfl h
+  | cons p ps ih =>
+    intro a h _
+    cases ps with
+    | nil => exact ⟨h.1, rfl⟩
+    | cons q qs => exact ⟨h.1, ih _ h.2 (List.cons_ne_nil _ _)⟩
+
+theorem symPE_modHead (b a : Rat) : ∀ (l : List (Rat × Rat)) (a0 : Rat), SymPE b a0 l → l ≠ [] →
+    SymPE b a (modHead (fun p => (a, p.2)) l) := by
+  intro l a0 h hne
+  cases l with
+  | nil => exact absurd rfl hne
+  | cons p ps => exact ⟨rfl, h.2⟩
+
+theorem weightsWith_symE {k : Nat} (hk : k ≠ 0) (b : Rat) : ∀ (ps : List (Rat × Rat)) (a : Rat), SymPE b a ps →
+    SymEnds (b / (k : Rat)) (a / (k : Rat)) (weightsWith ps k) := by
+  intro ps
+  induction ps with
+  | nil => intro a h; simp only [SymPE] at h; simp [weightsWith, hk, SymEnds, h]
+  | cons p ps ih =>
+    intro a h
+    obtain ⟨h1, h2⟩ := h
+    have := ih p.2 h2
+    simp only [weightsWith, hk, if_false, List.map_cons, SymEnds] at this ⊢
+    exact ⟨by rw [h1], by ring, this⟩
+
+/-- factor of the first cell with solution 0 before division by `nmix` (0 unless the boundary is constant) -/
+def aEnd (s : Setup) : Rat := if s.bconFirst = 1 then (match s.cells.head? with | some c => boundaryMix s c | none => 0) else 0
+/-- factor of the last cell with solution n+1 -/
+def bEnd (s : Setup) : Rat := if s.bconLast = 1 then (match s.cells.getLast? with | some c => boundaryMix s c | none => 0) else 0
+
+theorem rawMix_symE (s : Setup) (hf : s.flow = Flow.none) {L : Rat} (hL : ∀ c ∈ s.cells, c.len = L) (hne : s.cells ≠ []) :
+    SymPE (bEnd s) (aEnd s) (rawMix s).1 := by
+  show SymPE (bEnd s) (aEnd s) (lastFix s (firstFix s (cellLoop s none s.cells 0)))
+  have h0 : SymPE 0 0 (cellLoop s none s.cells 0) := by
+    apply symP_symPE
+    cases hc : s.cells with
+    | nil => exact absurd hc hne
+    | cons c rest =>
+      rw [hc] at hL
+      exact cellLoop_sym hf rest c none 0 (hL c (by simp)) (fun x h => hL x (by simp [h])) (by intro p h; cases h)
+  have hlen : cellLoop s none s.cells 0 ≠ [] := by
+    intro h; have := cellLoop_length s s.cells none 0; rw [h] at this
+    exact hne (List.length_eq_zero_iff.mp this.symm)
+  generalize cellLoop s none s.cells 0 = ps at h0 hlen
+  obtain ⟨c1, hc1⟩ : ∃ c, s.cells.head? = some c := by cases hc : s.cells with | nil => exact absurd hc hne | cons c _ => exact ⟨c, rfl⟩
+  obtain ⟨cn, hcn⟩ : ∃ c, s.cells.getLast? = some c := ⟨s.cells.getLast hne, List.getLast?_eq_getLast_of_ne_nil hne⟩
+  -- first boundary
+  have h1 : SymPE 0 (aEnd s) (firstFix s ps) ∧ firstFix s ps ≠ [] := by
+    unfold firstFix aEnd
+    by_cases hb : s.bconFirst = 1
+    · simp only [hb, if_true, hc1]
+      refine ⟨symPE_modHead 0 _ ps 0 h0 hlen, ?_⟩
+      cases ps with
+      | nil => exact absurd rfl hlen
+      | cons p ps => simp [modHead]
+    · simp only [hb, if_false]; exact ⟨h0, hlen⟩
+  generalize firstFix s ps = ps1 at h1
+  unfold lastFix bEnd
+  by_cases hb : s.bconLast = 1
+  · simp only [hb, if_true, hcn]
+    exact symPE_modLast _ ps1 _ h1.1 h1.2
+  · simp only [hb, if_false]; exact h1.1
+
+
 end PhreeqcVerif.Transport
